@@ -1,10 +1,472 @@
 package sim
 
-import bolt "go.etcd.io/bbolt"
+import (
+	"fmt"
+	"runtime"
+	"sort"
+	"strconv"
+	"strings"
+	"sync"
+	"testing/synctest"
+	"time"
 
-// Sched is the token scheduler (see sched_impl.go once built).
-type Sched struct{}
+	bolt "go.etcd.io/bbolt"
+)
 
-func (s *Sched) Lock(db *bolt.DB, which int, exclusive bool, try func() bool) {}
-func (s *Sched) Yield(db *bolt.DB, point string)                              {}
-func (s *Sched) OnceEnter(db *bolt.DB, seq int, busy func() bool)             {}
+// Token scheduler. Tasks are real goroutines inside a synctest bubble; at
+// every hook point a task hands the run token back and parks on its own
+// channel. The scheduler waits for quiescence (synctest.Wait), then resumes
+// exactly one enabled task chosen by the tape, or advances the fake clock.
+
+type taskState int
+
+const (
+	stReady    taskState = iota // parked at a yield point, may run
+	stLock                      // parked before a lock acquisition
+	stOnce                      // parked before sync.Once.Do of a batch
+	stRunning                   // holds the token (or ran freely after an external wake-up)
+	stExternal                  // durably blocked outside the hooks (channel, sleep)
+	stDone
+)
+
+type lockKey struct {
+	db    *bolt.DB
+	which int
+}
+
+// Task is one schedulable goroutine.
+type Task struct {
+	Name  string
+	idx   int
+	s     *Sched
+	wake  chan struct{}
+	state taskState
+	point string
+	try   func() bool
+	key   lockKey
+	excl  bool
+	goid  int64
+	fn    func(*Task)
+	// stalled tasks are not offered to the scheduler (a "stalled node": e.g.
+	// a reader that does not run for a long time)
+	stalled  bool
+	adopted  bool // a goroutine bbolt spawned itself (batch trigger)
+	abortErr any
+}
+
+type abortSentinel struct{}
+
+// Sched is the scheduler of one run.
+type Sched struct {
+	mu     sync.Mutex
+	tape   *Tape
+	tasks  []*Task
+	byGoid map[int64]*Task
+	// exclusive waiters per lock (writer preference of sync.RWMutex)
+	pendingExcl map[lockKey]int
+
+	Seq        int // global event sequence number (one per decision)
+	Decisions  int
+	MaxDec     int
+	finger     uint64
+	SimStart   time.Time
+	MaxSimTime time.Duration
+	TimeAdv    int
+	Deadlock   string // non-empty: the run deadlocked; describes the lock table
+	Exhausted  bool   // decision or time budget exhausted
+	aborting   bool
+	Trace      []string
+	KeepTrace  bool
+	Preempts   int // decisions that switched away from a task that was still enabled
+	last       *Task
+	idleAdv    int
+
+	TimersPending bool // bbolt timers may be pending (Batch): advancing the clock is always an option
+	Stickiness    int  // 0..100: probability of continuing with the task that ran last
+	Draining      bool // decision budget used up: finish deterministically without pre-emption
+	Stuck         bool // even draining did not finish: harness trouble, never a verdict
+}
+
+// NewSched creates a scheduler drawing its decisions from tape.
+func NewSched(tape *Tape) *Sched {
+	return &Sched{tape: tape, byGoid: map[int64]*Task{}, pendingExcl: map[lockKey]int{}, MaxDec: 4000, MaxSimTime: 60 * time.Second}
+}
+
+func goid() int64 {
+	var buf [64]byte
+	n := runtime.Stack(buf[:], false)
+	// "goroutine 123 ["
+	s := string(buf[:n])
+	s = strings.TrimPrefix(s, "goroutine ")
+	if i := strings.IndexByte(s, ' '); i > 0 {
+		id, _ := strconv.ParseInt(s[:i], 10, 64)
+		return id
+	}
+	return -1
+}
+
+func (s *Sched) cur() *Task {
+	id := goid()
+	s.mu.Lock()
+	t := s.byGoid[id]
+	s.mu.Unlock()
+	return t
+}
+
+// Go registers a task; it starts parked and runs when first scheduled.
+func (s *Sched) Go(name string, fn func(t *Task)) *Task {
+	s.mu.Lock()
+	t := &Task{Name: name, idx: len(s.tasks), s: s, wake: make(chan struct{}), state: stReady, point: "start", fn: fn}
+	s.tasks = append(s.tasks, t)
+	s.mu.Unlock()
+	go func() {
+		s.mu.Lock()
+		t.goid = goid()
+		s.byGoid[t.goid] = t
+		s.mu.Unlock()
+		defer func() {
+			if r := recover(); r != nil {
+				if _, ok := r.(abortSentinel); !ok {
+					t.abortErr = r
+				}
+			}
+			s.mu.Lock()
+			t.state = stDone
+			delete(s.byGoid, t.goid)
+			s.mu.Unlock()
+		}()
+		<-t.wake
+		if s.aborting {
+			panic(abortSentinel{})
+		}
+		fn(t)
+	}()
+	return t
+}
+
+func (t *Task) park(st taskState, point string) {
+	s := t.s
+	s.mu.Lock()
+	t.state = st
+	t.point = point
+	s.mu.Unlock()
+	<-t.wake
+	if s.aborting {
+		panic(abortSentinel{})
+	}
+}
+
+// Pause is an explicit scheduling point in client code.
+func (t *Task) Pause(point string) { t.park(stReady, point) }
+
+// Now returns the global event sequence number (for invoke/return stamps).
+func (s *Sched) Now() int { return s.Seq }
+
+// Yield is installed as bbolt's verifYield hook.
+func (s *Sched) Yield(db *bolt.DB, point string) {
+	t := s.cur()
+	if t == nil {
+		return
+	}
+	t.park(stReady, point)
+}
+
+// Lock is installed as bbolt's verifLock hook: probe before acquire.
+func (s *Sched) Lock(db *bolt.DB, which int, exclusive bool, try func() bool) {
+	t := s.cur()
+	if t == nil {
+		return
+	}
+	key := lockKey{db, which}
+	s.mu.Lock()
+	t.try, t.key, t.excl = try, key, exclusive
+	if exclusive && which == bolt.VerifMmapLock {
+		s.pendingExcl[key]++
+	}
+	s.mu.Unlock()
+	for {
+		t.park(stLock, "lock."+lockName(which))
+		if s.lockFree(t) {
+			break
+		}
+	}
+	s.mu.Lock()
+	if exclusive && which == bolt.VerifMmapLock {
+		s.pendingExcl[key]--
+	}
+	t.try = nil
+	s.mu.Unlock()
+}
+
+func lockName(which int) string {
+	switch which {
+	case bolt.VerifRWLock:
+		return "rwlock"
+	case bolt.VerifMetaLock:
+		return "metalock"
+	case bolt.VerifMmapLock:
+		return "mmaplock"
+	}
+	return "?"
+}
+
+// lockFree reports whether t's pending acquisition would succeed now.
+func (s *Sched) lockFree(t *Task) bool {
+	if t.try == nil {
+		return true
+	}
+	if !t.excl && t.key.which == bolt.VerifMmapLock {
+		s.mu.Lock()
+		p := s.pendingExcl[t.key]
+		s.mu.Unlock()
+		if p > 0 {
+			return false // sync.RWMutex: a waiting writer blocks new readers
+		}
+	}
+	return t.try()
+}
+
+// OnceEnter is installed as the hook in front of batch.start.Do: goroutines
+// bbolt spawned itself (go trigger(), the AfterFunc timer) are adopted here.
+func (s *Sched) OnceEnter(db *bolt.DB, seq int, busy func() bool) {
+	t := s.cur()
+	if t == nil {
+		// adopt: deterministic name from the batch sequence number
+		s.mu.Lock()
+		n := 0
+		prefix := fmt.Sprintf("batch%d.trigger", seq)
+		for _, x := range s.tasks {
+			if strings.HasPrefix(x.Name, prefix) {
+				n++
+			}
+		}
+		t = &Task{Name: fmt.Sprintf("%s.%d", prefix, n), idx: len(s.tasks), s: s, wake: make(chan struct{}), state: stRunning}
+		t.goid = goid()
+		s.tasks = append(s.tasks, t)
+		s.byGoid[t.goid] = t
+		s.mu.Unlock()
+		t.adopted = true // ends in OnceExit
+	}
+	s.mu.Lock()
+	t.try = func() bool { return !busy() }
+	t.key = lockKey{db, 100 + seq}
+	t.excl = true
+	s.mu.Unlock()
+	for {
+		t.park(stOnce, fmt.Sprintf("batch%d.once", seq))
+		if !busy() {
+			break
+		}
+	}
+	s.mu.Lock()
+	t.try = nil
+	s.mu.Unlock()
+}
+
+// OnceExit is installed as the hook at the end of batch.trigger: an adopted
+// goroutine ends there.
+func (s *Sched) OnceExit(db *bolt.DB, seq int) {
+	t := s.cur()
+	if t == nil || !t.adopted {
+		return
+	}
+	s.mu.Lock()
+	t.state = stDone
+	delete(s.byGoid, t.goid)
+	s.mu.Unlock()
+}
+
+// Stalled marks a task as not schedulable (true) or schedulable again.
+func (t *Task) SetStalled(v bool) {
+	t.s.mu.Lock()
+	t.stalled = v
+	t.s.mu.Unlock()
+}
+
+func (s *Sched) enabled(t *Task) bool {
+	switch t.state {
+	case stReady:
+		return !t.stalled
+	case stLock, stOnce:
+		return !t.stalled && s.lockFree(t)
+	}
+	return false
+}
+
+func (s *Sched) describe() string {
+	var sb strings.Builder
+	for _, t := range s.tasks {
+		st := []string{"ready", "blocked-on-lock", "blocked-on-once", "running", "external", "done"}[t.state]
+		fmt.Fprintf(&sb, "%s:%s@%s ", t.Name, st, t.point)
+	}
+	return sb.String()
+}
+
+var quanta = []time.Duration{time.Millisecond, 10 * time.Millisecond, 50 * time.Millisecond, 200 * time.Millisecond, time.Second}
+
+// Run drives all tasks to completion (or to deadlock / budget exhaustion).
+// It must be called from the bubble's root goroutine.
+func (s *Sched) Run() {
+	s.SimStart = time.Now()
+	for {
+		synctest.Wait()
+		s.mu.Lock()
+		// a task that still "runs" after quiescence is durably blocked
+		// outside the hooks (channel receive, sleep): external
+		for _, t := range s.tasks {
+			if t.state == stRunning {
+				t.state = stExternal
+			}
+		}
+		tasks := append([]*Task(nil), s.tasks...)
+		s.mu.Unlock()
+		var en []*Task
+		alive, ext := 0, 0
+		for _, t := range tasks {
+			if t.state != stDone {
+				alive++
+			}
+			if t.state == stExternal {
+				ext++
+			}
+			if s.enabled(t) {
+				en = append(en, t)
+			}
+		}
+		if alive == 0 {
+			return
+		}
+		if s.Decisions >= s.MaxDec || time.Since(s.SimStart) > s.MaxSimTime {
+			s.Draining = true
+			s.Exhausted = true
+		}
+		if s.Decisions >= 20*s.MaxDec {
+			s.Stuck = true
+			return
+		}
+		// registered tasks in registration order, then adopted goroutines by
+		// their (deterministic) names
+		sort.Slice(en, func(i, j int) bool {
+			a, b := en[i], en[j]
+			if a.adopted != b.adopted {
+				return !a.adopted
+			}
+			if a.adopted {
+				return a.Name < b.Name
+			}
+			return a.idx < b.idx
+		})
+		// options: each enabled task, plus "advance the clock" when something
+		// may be waiting for time
+		nopt := len(en)
+		canAdv := ext > 0 || s.TimersPending
+		if canAdv {
+			nopt++
+		}
+		if len(en) == 0 {
+			if !canAdv || s.idleAdv > 200 {
+				s.Deadlock = s.describe()
+				return
+			}
+		}
+		s.Seq++
+		s.Decisions++
+		var pick int
+		if len(en) == 0 || s.Draining {
+			pick = 0 // drain: first enabled task; nothing enabled: advance time
+		} else {
+			// bias: keep running the same task most of the time so that
+			// transactions make progress between pre-emptions
+			if s.last != nil && s.enabled(s.last) && s.tape.Intn(100) < s.Stickiness {
+				pick = -1
+				for i, t := range en {
+					if t == s.last {
+						pick = i
+					}
+				}
+			} else {
+				pick = s.tape.Intn(nopt)
+			}
+		}
+		if len(en) == 0 || pick == len(en) {
+			q := time.Second
+			if !s.Draining {
+				q = quanta[s.tape.Intn(len(quanta))]
+			}
+			s.TimeAdv++
+			if len(en) == 0 {
+				s.idleAdv++
+			}
+			s.note("advance", q.String())
+			time.Sleep(q)
+			continue
+		}
+		s.idleAdv = 0
+		t := en[pick]
+		if s.last != nil && s.last != t && s.enabled(s.last) {
+			s.Preempts++
+		}
+		s.last = t
+		s.note(t.Name, t.point)
+		s.mu.Lock()
+		t.state = stRunning
+		s.mu.Unlock()
+		t.wake <- struct{}{}
+	}
+}
+
+func (s *Sched) note(who, what string) {
+	h := s.finger
+	for i := 0; i < len(who); i++ {
+		h = (h ^ uint64(who[i])) * 1099511628211
+	}
+	h = (h ^ 0xff) * 1099511628211
+	for i := 0; i < len(what); i++ {
+		h = (h ^ uint64(what[i])) * 1099511628211
+	}
+	s.finger = h
+	if s.KeepTrace && len(s.Trace) < 5000 {
+		s.Trace = append(s.Trace, fmt.Sprintf("%d %s %s", s.Seq, who, what))
+	}
+}
+
+// Fingerprint identifies the interleaving that was executed.
+func (s *Sched) Fingerprint() uint64 { return s.finger }
+
+// Abort releases every parked task with a panic that its wrapper recovers,
+// so that the bubble can end after a deadlock or budget exhaustion.
+func (s *Sched) Abort() {
+	s.aborting = true
+	for i := 0; i < 50; i++ {
+		synctest.Wait()
+		s.mu.Lock()
+		var parked []*Task
+		for _, t := range s.tasks {
+			if t.state == stReady || t.state == stLock || t.state == stOnce {
+				parked = append(parked, t)
+			}
+		}
+		s.mu.Unlock()
+		if len(parked) == 0 {
+			return
+		}
+		for _, t := range parked {
+			s.mu.Lock()
+			t.state = stRunning
+			s.mu.Unlock()
+			t.wake <- struct{}{}
+			synctest.Wait()
+		}
+	}
+}
+
+// TaskPanics returns panics raised inside tasks (other than aborts).
+func (s *Sched) TaskPanics() []string {
+	var out []string
+	for _, t := range s.tasks {
+		if t.abortErr != nil {
+			out = append(out, fmt.Sprintf("%s: %v", t.Name, t.abortErr))
+		}
+	}
+	return out
+}
